@@ -24,6 +24,9 @@ pub enum COp {
     Collect,
     Gather,
     Reset,
+    /// vector-child programs: obtain the handle inside the thread (`with_label_values`), so that
+    /// simultaneous first requests race
+    Acquire,
 }
 
 #[derive(Clone, PartialEq, Eq, Hash)]
@@ -39,6 +42,7 @@ impl Model for CModel {
             COp::LocalFlush(bits) => self.0 += bits.iter().map(|b| 1u64 << b).sum::<u64>(),
             COp::Reset => self.0 = 0,
             COp::Get | COp::Collect | COp::Gather => return Some(self.0),
+            COp::Acquire => {}
         }
         None
     }
@@ -51,8 +55,18 @@ enum Ctr {
 }
 
 #[derive(Clone)]
+enum VecK {
+    F(CounterVec),
+    I(IntCounterVec),
+}
+
+#[derive(Clone)]
 struct Sys {
+    /// the handle used by the final (main-thread) reads and, unless `lazy`, by every thread
     c: Ctr,
+    /// lazy mode: every thread obtains its own handle from the vector inside the thread
+    lazy: Option<VecK>,
+    mine: Vec<std::sync::Arc<std::sync::Mutex<Option<Ctr>>>>,
     /// what `collect` is called on (the counter itself or the vector it is a child of)
     coll: std::sync::Arc<dyn Collector>,
     reg: Registry,
@@ -74,8 +88,25 @@ fn value_in(fams: &[prometheus::proto::MetricFamily]) -> u64 {
 }
 
 impl Sys {
-    fn exec(&self, op: &COp) -> Option<u64> {
-        match (op, &self.c) {
+    fn handle(&self, thread: usize) -> Ctr {
+        match &self.lazy {
+            None => self.c.clone(),
+            Some(v) => {
+                let mut g = self.mine[thread].lock().unwrap();
+                if g.is_none() {
+                    *g = Some(match v {
+                        VecK::F(v) => Ctr::F(v.with_label_values(&["x"])),
+                        VecK::I(v) => Ctr::I(v.with_label_values(&["x"])),
+                    });
+                }
+                g.clone().unwrap()
+            }
+        }
+    }
+    fn exec(&self, thread: usize, op: &COp) -> Option<u64> {
+        let h = self.handle(thread);
+        match (op, &h) {
+            (COp::Acquire, _) => {}
             (COp::IncBy(b), Ctr::F(c)) => c.inc_by((1u64 << b) as f64),
             (COp::IncBy(b), Ctr::I(c)) => c.inc_by(1u64 << b),
             (COp::Inc, Ctr::F(c)) => c.inc(),
@@ -127,8 +158,8 @@ impl Property for C01 {
     }
     fn budget(&self, tier: Tier) -> Budget {
         match tier {
-            Tier::Quick => Budget { cases: 20_000, min_len: 8, max_len: 200 },
-            Tier::Thorough => Budget { cases: 1_000_000, min_len: 8, max_len: 260 },
+            Tier::Quick => Budget { cases: 40000, min_len: 8, max_len: 200 },
+            Tier::Thorough => Budget { cases: 2000000, min_len: 8, max_len: 260 },
         }
     }
 
@@ -140,24 +171,34 @@ impl Property for C01 {
             (true, false) => {
                 let c = Counter::new("c", "h").unwrap();
                 reg.register(Box::new(c.clone())).unwrap();
-                Sys { c: Ctr::F(c.clone()), coll: std::sync::Arc::new(c), reg }
+                Sys { c: Ctr::F(c.clone()), lazy: None, mine: vec![], coll: std::sync::Arc::new(c), reg }
             }
             (false, false) => {
                 let c = IntCounter::new("c", "h").unwrap();
                 reg.register(Box::new(c.clone())).unwrap();
-                Sys { c: Ctr::I(c.clone()), coll: std::sync::Arc::new(c), reg }
+                Sys { c: Ctr::I(c.clone()), lazy: None, mine: vec![], coll: std::sync::Arc::new(c), reg }
             }
             (true, true) => {
                 let v = CounterVec::new(Opts::new("c", "h"), &["l"]).unwrap();
                 reg.register(Box::new(v.clone())).unwrap();
-                Sys { c: Ctr::F(v.with_label_values(&["x"])), coll: std::sync::Arc::new(v), reg }
+                // placeholder handle; replaced after the run in lazy mode
+                Sys { c: Ctr::F(Counter::new("placeholder", "h").unwrap()), lazy: Some(VecK::F(v.clone())), mine: vec![], coll: std::sync::Arc::new(v), reg }
             }
             (false, true) => {
                 let v = IntCounterVec::new(Opts::new("c", "h"), &["l"]).unwrap();
                 reg.register(Box::new(v.clone())).unwrap();
-                Sys { c: Ctr::I(v.with_label_values(&["x"])), coll: std::sync::Arc::new(v), reg }
+                Sys { c: Ctr::I(IntCounter::new("placeholder", "h").unwrap()), lazy: Some(VecK::I(v.clone())), mine: vec![], coll: std::sync::Arc::new(v), reg }
             }
         };
+        let mut sys = sys;
+        let lazy_first_touch = as_child && src.chance(150);
+        if as_child && !lazy_first_touch {
+            // the child exists before the threads start and all share one handle
+            sys.c = match sys.lazy.take().unwrap() {
+                VecK::F(v) => Ctr::F(v.with_label_values(&["x"])),
+                VecK::I(v) => Ctr::I(v.with_label_values(&["x"])),
+            };
+        }
         let with_reset = src.chance(48);
         let use_inc = src.chance(64);
         let nthreads = 2 + src.below(2);
@@ -195,17 +236,22 @@ impl Property for C01 {
                 };
                 ops.push(op);
             }
+            if lazy_first_touch {
+                ops.insert(0, COp::Acquire);
+            }
             prog.push(ops);
         }
+        sys.mine = (0..nthreads + 1).map(|_| std::sync::Arc::new(std::sync::Mutex::new(None))).collect();
         let total: usize = prog.iter().map(|p| p.len()).sum();
         let threads: Vec<Vec<OpFn<Option<u64>>>> = prog
             .iter()
-            .map(|ops| {
+            .enumerate()
+            .map(|(t, ops)| {
                 ops.iter()
                     .map(|op| {
                         let s = sys.clone();
                         let op = op.clone();
-                        Box::new(move || s.exec(&op)) as OpFn<Option<u64>>
+                        Box::new(move || s.exec(t, &op)) as OpFn<Option<u64>>
                     })
                     .collect()
             })
@@ -227,9 +273,10 @@ impl Property for C01 {
             .map(|o| HOp { op: prog[o.thread][o.idx].clone(), res: o.result.unwrap(), invoke: o.invoke, response: o.response.unwrap() })
             .collect();
         let last = exec.trace.len() + 1;
-        let fin_get = sys.exec(&COp::Get);
-        let fin_collect = sys.exec(&COp::Collect);
-        let fin_gather = sys.exec(&COp::Gather);
+        // final reads by the main thread (slot `nthreads`): in lazy mode through a fresh request to the vector
+        let fin_get = sys.exec(nthreads, &COp::Get);
+        let fin_collect = sys.exec(nthreads, &COp::Collect);
+        let fin_gather = sys.exec(nthreads, &COp::Gather);
         hist.push(HOp { op: COp::Get, res: fin_get, invoke: last, response: last + 1 });
         let describe = |hist: &Vec<HOp<COp, Option<u64>>>| {
             let h: Vec<String> = hist
@@ -288,11 +335,14 @@ impl Property for C01 {
                 }
             }
         }
-        let touching = prog.iter().filter(|p| p.iter().any(|o| !matches!(o, COp::Get | COp::Collect | COp::Gather))).count();
+        let touching = prog.iter().filter(|p| p.iter().any(|o| !matches!(o, COp::Get | COp::Collect | COp::Gather | COp::Acquire))).count();
         rep.nontrivial = exec.preempt_inside_op > 0 && touching >= 2;
         rep.class(if float { "float-counter" } else { "int-counter" });
         if as_child {
             rep.class("vector-child");
+        }
+        if lazy_first_touch {
+            rep.class("vector-child:first-request-inside-the-threads");
         }
         if prog.iter().any(|p| p.iter().any(|o| matches!(o, COp::LocalFlush(_)))) {
             rep.class("with-local-flush");
